@@ -85,6 +85,20 @@ static size_t producer(void* st, ZSTD_Sequence* outSeqs, size_t cap, const void*
     vf::Tape local = *s->t;   // deterministic: the producer draws from a copy positioned where registration left it
     std::vector<ZSTD_Sequence> v = random_parse(local, nodict, blk, po, &a, &b);
     if (getenv("VF_TRACE")) { fprintf(stderr, "producer: srcSize=%zu window=%zu cap=%zu -> %zu seqs:", srcSize, windowSize, cap, v.size()); for (auto& q : v) fprintf(stderr, " (of %u ll %u ml %u)", q.offset, q.litLength, q.matchLength); fprintf(stderr, "\n"); }
+    if (s->fail_mode == 3 && !v.empty() && (s->calls == 1 || local.flip())) {
+        // a misbehaving producer: field corruptions of its valid parse, incl. lengths that wrap 32-bit sums
+        unsigned nc = (unsigned)local.range(1, 4);
+        for (unsigned i = 0; i < nc; i++) {
+            ZSTD_Sequence& q = v[(size_t)local.range(0, v.size() - 1)];
+            switch (local.weighted({3, 3, 2, 2, 2})) {
+                case 0: q.litLength = (unsigned)local.pick<unsigned>({0xFFFFFFFFu, 0x80000000u, 0x40000000u, 0xFFFFFF00u}) + (local.flip() ? q.litLength : 0); break;
+                case 1: q.matchLength = (unsigned)local.pick<unsigned>({0xFFFFFFFFu, 0x80000000u, 0x40000000u, 0xFFFF0000u}) + (local.flip() ? q.matchLength : 0); break;
+                case 2: q.offset = (unsigned)local.range(0, 0xFFFFFFFFu); if (q.offset == 0) q.matchLength = 0; break;
+                case 3: q.litLength += (unsigned)local.range(1, 200000); break;
+                default: q.matchLength = (unsigned)local.range(0, 200000); if (q.offset == 0) q.matchLength = 0; break;
+            }
+        }
+    }
     if (v.size() > cap) return ZSTD_SEQUENCE_PRODUCER_ERROR;
     memcpy(outSeqs, v.data(), v.size() * sizeof(ZSTD_Sequence));
     return v.size();
@@ -251,8 +265,9 @@ void vf_case(vf::Ctx& c) {
         ZSTD_CCtx_setParameter(k.c, ZSTD_c_validateSequences, validate);
         ZSTD_CCtx_setParameter(k.c, ZSTD_c_checksumFlag, 1);
         ZSTD_CCtx_setParameter(k.c, ZSTD_c_enableLongDistanceMatching, ZSTD_ps_disable);
-        int fail_mode = (int)t.weighted({5, 2, 2});
+        int fail_mode = (int)t.weighted({5, 2, 2, 3});   // valid parse | fails at once | fails on the 2nd block | returns corrupted lists
         int fallback = (int)t.range(0, 1);
+        if (fail_mode == 3) ZSTD_CCtx_setParameter(k.c, ZSTD_c_validateSequences, 1);   // memory safety of arbitrary arrays is promised with validation on
         ZSTD_CCtx_setParameter(k.c, ZSTD_c_enableSeqProducerFallback, fallback);
         ProducerState st{&x, 3, fail_mode, 0, &t};
         ZSTD_registerSequenceProducer(k.c, &st, producer);
@@ -265,6 +280,13 @@ void vf_case(vf::Ctx& c) {
             n = ZSTD_isError(r) ? r : ob.pos;
         }
         bool producer_failed = st.calls > 0 && (fail_mode == 1 || (fail_mode == 2 && st.calls >= 2));
+        if (fail_mode == 3) {
+            // arbitrary arrays from a producer: handled memory-safely (ASan is the judge); a frame, if one comes out, decodes in bounds
+            if (!ZSTD_isError(n)) { std::vector<uint8_t> back(x.size() + 1); ZSTD_DCtx_reset(k.d, ZSTD_reset_session_and_parameters); (void)ZSTD_decompressDCtx(k.d, back.data(), back.size(), dst.p, n); c.label("corrupting_producer_accepted"); }
+            else c.label("corrupting_producer_refused");
+            c.nontrivial = st.calls > 0;
+            return;
+        }
         if (producer_failed && !fallback) {
             VF_CHECK(c, ZSTD_isError(n) && ZSTD_getErrorCode(n) == ZSTD_error_sequenceProducer_failed, "the producer reported failure and fallback is off, but the call returned %s", ZSTD_isError(n) ? ZSTD_getErrorName(n) : "success");
             c.label("producer_failure_fails_the_call");
